@@ -2,6 +2,7 @@ package checks
 
 import (
 	"fmt"
+	wire "github.com/jeroenrinzema/psql-wire"
 	"strings"
 	"sync"
 
@@ -16,7 +17,7 @@ type c07 struct{ base }
 
 func init() {
 	core.Register(c07{base{id: "C07", race: true, level: "exploration", quickB: 16, thoroughB: 32,
-		rule: "unambiguous histories: every Parse carries a unique query id (visible in the column names a portal Describe returns and in the statement id the exec callback reports) and every Bind unique parameter bytes, so each Execute/Describe identifies the definition it used; the namespace model (harness/checks/ext.go) gives the expected resolution. quick: exhaustive histories of length <= 4 over {Parse n, Bind p<-n, Execute p, Describe-portal p, Close-statement n, Close-portal p, simple Query} with n,p in {\"\",a} + random length <= 14 over {\"\",a,b}; plus concurrent groups of 2-16 connections using the same names on one server under the race detector with yield injection, each judged against its own sequential model. Non-trivial = a name is defined twice, closed, or used after re-definition; distinct = message-kind/name sequence.",
+		rule:        "unambiguous histories: every Parse carries a unique query id (visible in the column names a portal Describe returns and in the statement id the exec callback reports) and every Bind unique parameter bytes, so each Execute/Describe identifies the definition it used; the namespace model (harness/checks/ext.go) gives the expected resolution. quick: exhaustive histories of length <= 4 over {Parse n, Bind p<-n, Execute p, Describe-portal p, Close-statement n, Close-portal p, simple Query} with n,p in {\"\",a} + random length <= 14 over {\"\",a,b}; plus concurrent groups of 2-16 connections using the same names on one server under the race detector with yield injection, each judged against its own sequential model. Non-trivial = a name is defined twice, closed, or used after re-definition; distinct = message-kind/name sequence.",
 		need:        []string{"messages_stepped", "executes_resolved", "redefinitions", "closes", "concurrent_groups", "race_detector_active_batches"},
 		assumptions: append([]string{"each connection is served by one goroutine, so per-connection histories are sequential and are decided by replaying them through a map model (complete, linear time); whether portals survive Sync and whether closing a statement cascades to its portals is left open"}, commonAssumptions...)}})
 }
@@ -122,6 +123,9 @@ func c07random(rng *core.Rng, pfx string, maxLen int) []xMsg {
 					pm.Query, pm.Prog = o.Query, o.Prog
 				}
 			}
+			for j := rng.Intn(6) - 2; j > 0; j-- {
+				pm.OIDs = append(pm.OIDs, core.Pick(rng, []uint32{0, 23, 25, 1043, 705})) // client-prespecified types
+			}
 			h = append(h, pm)
 			defS[name] = true
 		case k < 47:
@@ -173,7 +177,16 @@ func c07random(rng *core.Rng, pfx string, maxLen int) []xMsg {
 
 func (ch c07) Run(c *core.Ctx) {
 	nb := ch.Batches(c.Tier)
-	env := hs.Start(hs.Parse)
+	var opts []wire.OptionFn
+	if c.Batch%2 == 1 {
+		// the caches configured through the Statements / Portals options (one instance per connection)
+		opts = append(opts, wire.Statements(func() wire.StatementCache {
+			c.Count("cache_factories_called", 1)
+			return wire.DefaultStatementCacheFn()
+		}),
+			wire.Portals(func() wire.PortalCache { return wire.DefaultPortalCacheFn() }))
+	}
+	env := hs.Start(hs.Parse, opts...)
 	defer env.Stop()
 	idx := 0
 	account := func(h []xMsg, run xRun) {
@@ -235,6 +248,9 @@ func (ch c07) Run(c *core.Ctx) {
 		}
 		rng := core.NewRng(c.Seed, "C07", 0, i)
 		h := append(c07random(rng, fmt.Sprintf("r%d", i), rlen), xMsg{K: "sync"})
+		if rng.Intn(3) == 0 {
+			h = append(h, xMsg{K: "terminate"})
+		}
 		_, run := judgeHistory(c, env, h, map[string]any{"history": histString(h)}, "C07")
 		account(h, run)
 	}
@@ -249,6 +265,9 @@ func (ch c07) Run(c *core.Ctx) {
 		var wg sync.WaitGroup
 		for k := 0; k < n; k++ {
 			h := append(c07random(rng, fmt.Sprintf("g%dc%d", g, k), rlen), xMsg{K: "sync"})
+			if rng.Bool() {
+				h = append(h, xMsg{K: "terminate"}) // connections end by Terminate as often as by EOF
+			}
 			seed := rng.U64()
 			wg.Add(1)
 			go func(k int, h []xMsg) {
